@@ -667,6 +667,8 @@ def _gen_spec_once(rng, pf):
     }
     if rng.random() < 0.2:
         spec["charac_sheet_order"] = "reversed"
+    if float(start).is_integer() and float(dt).is_integer() and float(spec["settings"]["end"]).is_integer() and rng.random() < 0.6:
+        spec["settings"]["int_typed"] = True
     # residual marker sanity: a cell holds either '>' or parameters
     for t in spec["trans"]:
         if ">" in t[2] and t[2] != ">":
@@ -848,7 +850,11 @@ def build_project(spec, fw=None, data=None):
     if data is None:
         data = build_data(spec, fw)
     s = spec["settings"]
-    P = at.Project(framework=fw, databook=data, do_run=False, sim_start=s["start"], sim_end=s["end"], sim_dt=s["dt"])
+    if s.get("int_typed"):
+        # the same grid written with integers (start=2000, dt=1): the settings accept any real numbers
+        P = at.Project(framework=fw, databook=data, do_run=False, sim_start=int(s["start"]), sim_end=int(s["end"]), sim_dt=int(s["dt"]))
+    else:
+        P = at.Project(framework=fw, databook=data, do_run=False, sim_start=s["start"], sim_end=s["end"], sim_dt=s["dt"])
     ps = P.parsets[0]
     for par, d in spec.get("yfactors", {}).items():
         for pop, f in d.items():
